@@ -327,8 +327,11 @@ pub fn message_strategy(sz: MsgSize) -> impl Strategy<Value = Message> {
                 (if sz.min_records > 0 { n } else { 0 })..=n,
             ),
             edns_strategy(),
+            // a ladder: the k-th name of the message is one label in front of the (k-1)-th, so
+            // that a compressing encoder chains k pointers (suffixes shared at every depth)
+            proptest::option::weighted(0.15, (2usize..=126, 1usize..=3)),
         )
-            .prop_map(move |(header, qi, qtype, qclass, rrs, edns)| {
+            .prop_map(move |(header, qi, qtype, qclass, rrs, edns, ladder)| {
                 let mut m = Message {
                     header,
                     questions: vec![Question {
@@ -343,6 +346,26 @@ pub fn message_strategy(sz: MsgSize) -> impl Strategy<Value = Message> {
                         0 => m.answer.push(r),
                         1 => m.authority.push(r),
                         _ => m.additional.push(r),
+                    }
+                }
+                if let Some((depth, lablen)) = ladder {
+                    let mut names: Vec<Name> = vec![];
+                    let mut cur: Name = vec![b"top".to_vec()];
+                    let mut wire = 5;
+                    names.push(cur.clone());
+                    for k in 0..depth {
+                        let l: Vec<u8> = format!("{:03}", k).as_bytes()[3 - lablen..].to_vec();
+                        if wire + l.len() + 1 > 255 {
+                            break;
+                        }
+                        wire += l.len() + 1;
+                        cur.insert(0, l);
+                        names.push(cur.clone());
+                    }
+                    m.questions[0].name = names[0].clone();
+                    let last = names.len() - 1;
+                    for (k, r) in m.answer.iter_mut().chain(m.authority.iter_mut()).chain(m.additional.iter_mut()).enumerate() {
+                        r.name = names[(k + 1).min(last)].clone();
                     }
                 }
                 if let Some(e) = &edns {
